@@ -43,6 +43,77 @@ Proof. intros H. unfold x_str. now rewrite H. Qed.
 Lemma x_int_valid p b : utf8_valid b = true -> x_int p (FBulk b) = p b.
 Proof. intros H. unfold x_int. now rewrite x_str_valid. Qed.
 
+(** ASCII text is valid UTF-8; text that parses as an integer is ASCII: extract_string(..)?.parse()
+    fails exactly when parse fails *)
+Definition ascii (l : bytes) : bool := forallb (fun c => c <? 128) l.
+Lemma ascii_valid_f : forall fuel l, ascii l = true -> utf8_valid_f fuel l = true.
+Proof.
+  induction fuel as [|f IH]; intros l Ha; [reflexivity|]. destruct l as [|c r]; [reflexivity|].
+  cbn [ascii forallb] in Ha. apply andb_prop in Ha. destruct Ha as [Hc Hr].
+  cbn [utf8_valid_f utf8_step]. rewrite Hc. cbn [skipn]. now apply IH.
+Qed.
+Lemma ascii_valid l : ascii l = true -> utf8_valid l = true.
+Proof. apply ascii_valid_f. Qed.
+Lemma digits_val_ascii l : forall acc v, digits_val l acc = Some v -> ascii l = true.
+Proof.
+  induction l as [|c r IH]; intros acc v E; [reflexivity|]. cbn [digits_val] in E.
+  destruct (is_digit c) eqn:Ed; [|discriminate]. cbn [ascii forallb]. fold (ascii r). rewrite (IH _ _ E), andb_true_r.
+  unfold is_digit in Ed. apply andb_prop in Ed. destruct Ed as [_ H]. apply Z.leb_le in H. apply Z.ltb_lt. lia.
+Qed.
+Lemma parse_digits_ascii l v : parse_digits l = Some v -> ascii l = true.
+Proof. unfold parse_digits. destruct l; [discriminate|]. apply digits_val_ascii. Qed.
+Lemma parse_signed_ascii lo hi l v : parse_signed lo hi l = Some v -> ascii l = true.
+Proof.
+  unfold parse_signed. intros E.
+  assert (G : forall r0, match r0 with Some v0 => if (lo <=? v0) && (v0 <=? hi) then Some v0 else None | None => None end = Some v -> r0 <> None).
+  { intros [x|] H; [discriminate|discriminate H]. }
+  destruct l as [|c r]; [discriminate|].
+  destruct (c =? 43) eqn:E43; [apply Z.eqb_eq in E43; subst c|].
+  { destruct (parse_digits r) as [w|] eqn:Ew; [|cbn in E; discriminate E]. cbn [ascii forallb]. fold (ascii r). now rewrite (parse_digits_ascii _ _ Ew). }
+  destruct (c =? 45) eqn:E45; [apply Z.eqb_eq in E45; subst c|].
+  { destruct (parse_digits r) as [w|] eqn:Ew; [|cbn in E; discriminate E]. cbn [ascii forallb]. fold (ascii r). now rewrite (parse_digits_ascii _ _ Ew). }
+  assert (Hr : match c :: r with 43 :: d0 => parse_digits d0 | 45 :: d0 => option_map Z.opp (parse_digits d0) | _ => parse_digits (c :: r) end = parse_digits (c :: r)).
+  { destruct c as [|q|q]; try reflexivity. do 6 (destruct q; try reflexivity); cbn in E43, E45; discriminate. }
+  rewrite Hr in E. destruct (parse_digits (c :: r)) as [w|] eqn:Ew; [|cbn in E; discriminate E]. exact (parse_digits_ascii _ _ Ew).
+Qed.
+Lemma parse_unsigned_ascii hi l v : parse_unsigned hi l = Some v -> ascii l = true.
+Proof.
+  unfold parse_unsigned. intros E.
+  destruct l as [|c r]; [discriminate|].
+  destruct (c =? 43) eqn:E43; [apply Z.eqb_eq in E43; subst c|].
+  { destruct (parse_digits r) as [w|] eqn:Ew; [|discriminate]. cbn [ascii forallb]. fold (ascii r). now rewrite (parse_digits_ascii _ _ Ew). }
+  assert (Hr : match c :: r with 43 :: d0 => parse_digits d0 | _ => parse_digits (c :: r) end = parse_digits (c :: r)).
+  { destruct c as [|q|q]; try reflexivity. do 6 (destruct q; try reflexivity); cbn in E43; discriminate. }
+  rewrite Hr in E. destruct (parse_digits (c :: r)) as [w|] eqn:Ew; [|discriminate]. exact (parse_digits_ascii _ _ Ew).
+Qed.
+Lemma x_int_of p b : (forall v, p b = Some v -> ascii b = true) -> x_int p (FBulk b) = p b.
+Proof.
+  intros H. unfold x_int, x_str. destruct (utf8_valid b) eqn:E; [reflexivity|].
+  destruct (p b) as [v|] eqn:Ep; [|reflexivity]. rewrite (ascii_valid _ (H v eq_refl)) in E. discriminate.
+Qed.
+Lemma x_int_i64 b : x_int parse_i64 (FBulk b) = parse_i64 b.
+Proof. apply x_int_of. intros v. apply parse_signed_ascii. Qed.
+Lemma x_int_isize b : x_int parse_isize (FBulk b) = parse_isize b.
+Proof. apply x_int_of. intros v. apply parse_signed_ascii. Qed.
+Lemma x_int_u64 b : x_int parse_u64 (FBulk b) = parse_u64 b.
+Proof. apply x_int_of. intros v. apply parse_unsigned_ascii. Qed.
+Lemma x_int_usize b : x_int parse_usize (FBulk b) = parse_usize b.
+Proof. apply x_int_of. intros v. apply parse_unsigned_ascii. Qed.
+Ltac xints := rewrite ?x_int_isize, ?x_int_usize, ?x_int_i64, ?x_int_u64; unfold parse_isize, parse_usize, parse_u64.
+(** a word that upper-cases to ASCII text is ASCII *)
+Lemma upper_ascii l : ascii (upper l) = true -> ascii l = true.
+Proof.
+  induction l as [|c r IH]; [reflexivity|]. unfold upper. cbn [map ascii forallb]. fold (upper r). fold (ascii (upper r)). fold (ascii r).
+  intros H. apply andb_prop in H. destruct H as [Hc Hr]. rewrite (IH Hr), andb_true_r.
+  unfold upper1 in Hc. destruct ((97 <=? c) && (c <=? 122)) eqn:E; [|exact Hc].
+  apply andb_prop in E. destruct E as [_ E]. apply Z.leb_le in E. apply Z.ltb_lt. lia.
+Qed.
+Lemma invalid_not_word a K : ascii K = true -> utf8_valid a = false -> beq (upper a) K = false.
+Proof.
+  intros HK Hv. destruct (beq (upper a) K) eqn:E; [|reflexivity]. apply beq_eq in E.
+  rewrite <- E in HK. rewrite (ascii_valid _ (upper_ascii _ HK)) in Hv. discriminate.
+Qed.
+
 (** pairs: x_pairs and pairs_of agree on bulk lists *)
 Lemma x_pairs_pairs_of l : x_pairs (bulks l) = pairs_of (bulks l).
 Proof.
@@ -153,42 +224,42 @@ Notation via := (via now d).
 
 Lemma shape_range (c : bytes -> Z -> Z -> xcmd) (f : Z -> Z -> option value -> frame * upd) :
   (forall k s e, execute now d (c k s e) None = on_key d k (f s e)) ->
-  forall args, forallb utf8_valid args = true ->
+  forall args,
   via (parse_k_int_int c (F :: bulks args)) = h_range f d (F :: bulks args).
 Proof.
-  intros Hc [|k [|a [|b [|x r]]]] Hv; unfold h_range, nparts, parse_k_int_int, ExecFacts.via, key_of, nth_arg;
+  intros Hc [|k [|a [|b [|x r]]]]; unfold h_range, nparts, parse_k_int_int, ExecFacts.via, key_of, nth_arg;
     rewrite ?bulks_cons, ?bulks_nil; cbn [nth_error x_bytes arg_bytes]; lens; try reflexivity.
-  - valids Hv. rewrite !x_int_valid by assumption.
-    destruct (parse_isize a) as [s|]; [|reflexivity].
-    destruct (parse_isize b) as [e|]; [|reflexivity].
+  - xints.
+    destruct (parse_i64 a) as [s|]; [|reflexivity].
+    destruct (parse_i64 b) as [e|]; [|reflexivity].
     rewrite Hc. reflexivity.
   - len_bool. destruct (1 + (1 + (1 + (1 + (1 + len r)))) =? 4) eqn:E; [lia|]. reflexivity.
 Qed.
 
 Lemma shape_int_bulk (c : bytes -> Z -> bytes -> xcmd) (f : Z -> bytes -> option value -> frame * upd) :
   (forall k i v, execute now d (c k i v) None = on_key d k (f i v)) ->
-  forall args, forallb utf8_valid args = true ->
+  forall args,
   via (parse_k_int_v parse_isize c (F :: bulks args)) = h_int_bulk f d (F :: bulks args).
 Proof.
-  intros Hc [|k [|a [|b [|x r]]]] Hv; unfold h_int_bulk, nparts, parse_k_int_v, ExecFacts.via, key_of, nth_arg;
+  intros Hc [|k [|a [|b [|x r]]]]; unfold h_int_bulk, nparts, parse_k_int_v, ExecFacts.via, key_of, nth_arg;
     rewrite ?bulks_cons, ?bulks_nil; cbn [nth_error x_bytes arg_bytes]; lens; try reflexivity.
-  - valids Hv. rewrite !x_int_valid by assumption.
-    destruct (parse_isize a) as [s|]; [|reflexivity].
+  - xints.
+    destruct (parse_i64 a) as [s|]; [|reflexivity].
     rewrite Hc. reflexivity.
   - len_bool. destruct (1 + (1 + (1 + (1 + (1 + len r)))) =? 4) eqn:E; [lia|]. reflexivity.
 Qed.
 
-Lemma shape_lindex args : forallb utf8_valid args = true ->
+Lemma shape_lindex args :
   via (parse_k_int parse_isize XLIndex (F :: bulks args)) = h_lindex d (F :: bulks args).
 Proof.
-  destruct args as [|k [|a [|x r]]]; intros Hv; unfold h_lindex, nparts, parse_k_int, ExecFacts.via, key_of, nth_arg;
+  destruct args as [|k [|a [|x r]]]; unfold h_lindex, nparts, parse_k_int, ExecFacts.via, key_of, nth_arg;
     rewrite ?bulks_cons, ?bulks_nil; cbn [nth_error x_bytes arg_bytes]; lens; try reflexivity.
-  - valids Hv. rewrite !x_int_valid by assumption.
-    destruct (parse_isize a) as [s|]; reflexivity.
+  - xints.
+    destruct (parse_i64 a) as [s|]; reflexivity.
   - len_bool. destruct (1 + (1 + (1 + (1 + len r))) =? 3) eqn:E; [lia|]. reflexivity.
 Qed.
 
-Lemma shape_hincrby args : forallb utf8_valid args = true ->
+Lemma shape_hincrby args :
   via (match F :: bulks args with
        | [_; k; f; a] =>
            match x_int parse_i64 a, x_bytes k, x_bytes f with
@@ -198,9 +269,9 @@ Lemma shape_hincrby args : forallb utf8_valid args = true ->
        | _ => None
        end) = h_hincrby d (F :: bulks args).
 Proof.
-  destruct args as [|k [|a [|b [|x r]]]]; intros Hv; unfold h_hincrby, nparts, ExecFacts.via, key_of, nth_arg;
+  destruct args as [|k [|a [|b [|x r]]]]; unfold h_hincrby, nparts, ExecFacts.via, key_of, nth_arg;
     rewrite ?bulks_cons, ?bulks_nil; cbn [nth_error x_bytes arg_bytes]; lens; try reflexivity.
-  - valids Hv. rewrite !x_int_valid by assumption.
+  - xints.
     destruct (parse_i64 b) as [s|]; reflexivity.
   - len_bool. destruct (1 + (1 + (1 + (1 + (1 + len r)))) =? 4) eqn:E; [lia|]. reflexivity.
 Qed.
@@ -256,22 +327,22 @@ Proof.
   - len_bool. destruct (1 + (1 + (1 + len r)) =? 2) eqn:E; [lia|]. reflexivity.
 Qed.
 
-Lemma parity_incrby args : forallb utf8_valid args = true ->
+Lemma parity_incrby args :
   match args with k :: _ => beq k [] = false | _ => True end ->
   via (parse_k_int parse_i64 XIncrBy (F :: bulks args)) = h_incrby d (F :: bulks args).
 Proof.
-  destruct args as [|k [|a [|x r]]]; intros Hv Hk; unfold h_incrby, nparts, parse_k_int, ExecFacts.via, nth_arg;
+  destruct args as [|k [|a [|x r]]]; intros Hk; unfold h_incrby, nparts, parse_k_int, ExecFacts.via, nth_arg;
     rewrite ?bulks_cons, ?bulks_nil; cbn [nth_error x_bytes arg_bytes]; lens; try reflexivity.
-  - valids Hv. rewrite Hk, x_int_valid by assumption. destruct (parse_i64 a); reflexivity.
+  - rewrite Hk; xints. destruct (parse_i64 a); reflexivity.
   - len_bool. destruct (1 + (1 + (1 + (1 + len r))) =? 3) eqn:E; [lia|]. reflexivity.
 Qed.
 
-Lemma parity_decrby args : forallb utf8_valid args = true ->
+Lemma parity_decrby args :
   via (parse_k_int parse_i64 XDecrBy (F :: bulks args)) = h_decrby d (F :: bulks args).
 Proof.
-  destruct args as [|k [|a [|x r]]]; intros Hv; unfold h_decrby, nparts, parse_k_int, ExecFacts.via, nth_arg;
+  destruct args as [|k [|a [|x r]]]; unfold h_decrby, nparts, parse_k_int, ExecFacts.via, nth_arg;
     rewrite ?bulks_cons, ?bulks_nil; cbn [nth_error x_bytes arg_bytes]; lens; try reflexivity.
-  - valids Hv. rewrite x_int_valid by assumption. destruct (parse_i64 a) as [n|]; reflexivity.
+  - xints. destruct (parse_i64 a) as [n|]; reflexivity.
   - len_bool. destruct (1 + (1 + (1 + (1 + len r))) =? 3) eqn:E; [lia|]. reflexivity.
 Qed.
 
@@ -299,12 +370,11 @@ Qed.
 Lemma parity_setex (mult : Z) (c : bytes -> bytes -> Z -> xcmd) args :
   (forall k v n, execute now d (c k v n) None =
      match eng_set now d k v (Some (n * mult)) with Some d' => (r_ok, d') | None => (r_err, d) end) ->
-  forallb utf8_valid args = true ->
   via (parse_k_int_v parse_u64 (fun k n v => c k v n) (F :: bulks args)) = h_setex mult now d (F :: bulks args).
 Proof.
-  intros Hc. destruct args as [|k [|a [|b [|x r]]]]; intros Hv; unfold h_setex, nparts, parse_k_int_v, ExecFacts.via, nth_arg;
+  intros Hc. destruct args as [|k [|a [|b [|x r]]]]; unfold h_setex, nparts, parse_k_int_v, ExecFacts.via, nth_arg;
     rewrite ?bulks_cons, ?bulks_nil; cbn [nth_error x_bytes arg_bytes]; lens; try reflexivity.
-  - valids Hv. rewrite x_int_valid by assumption. destruct (parse_u64 a) as [n|]; [|reflexivity].
+  - xints. destruct (parse_unsigned u64_max a) as [n|]; [|reflexivity].
     rewrite Hc. unfold eng_set. destruct (ttl_ok (n * mult)); reflexivity.
   - len_bool. destruct (1 + (1 + (1 + (1 + (1 + len r)))) =? 4) eqn:E; [lia|]. reflexivity.
 Qed.
@@ -365,46 +435,46 @@ Proof.
   - cbn [execute]. unfold eng_strlen. destruct (get_entry d k) as [e|]; [destruct (e_val e)|]; reflexivity.
   - len_bool. destruct (1 + (1 + (1 + len r)) =? 2) eqn:E; [lia|]. reflexivity.
 Qed.
-Lemma parity_getrange args : forallb utf8_valid args = true ->
+Lemma parity_getrange args :
   via (parse_k_int_int XGetRange (F :: bulks args)) = h_getrange d (F :: bulks args).
 Proof.
-  destruct args as [|k [|a [|b [|x r]]]]; intros Hv; unfold h_getrange, nparts, parse_k_int_int, ExecFacts.via, nth_arg;
+  destruct args as [|k [|a [|b [|x r]]]]; unfold h_getrange, nparts, parse_k_int_int, ExecFacts.via, nth_arg;
     rewrite ?bulks_cons, ?bulks_nil; cbn [nth_error x_bytes arg_bytes]; lens; try reflexivity.
-  - valids Hv. rewrite !x_int_valid by assumption.
-    destruct (parse_isize a) as [s|]; [|reflexivity]. destruct (parse_isize b) as [e|]; [|reflexivity].
+  - xints.
+    destruct (parse_i64 a) as [s|]; [|reflexivity]. destruct (parse_i64 b) as [e|]; [|reflexivity].
     cbn [execute]. unfold eng_getrange. destruct (get_entry d k) as [en|]; [destruct (e_val en)|]; reflexivity.
   - len_bool. destruct (1 + (1 + (1 + (1 + (1 + len r)))) =? 4) eqn:E; [lia|]. reflexivity.
 Qed.
-Lemma parity_setrange args : forallb utf8_valid args = true ->
+Lemma parity_setrange args :
   via (parse_k_int_v parse_usize XSetRange (F :: bulks args)) = h_setrange d (F :: bulks args).
 Proof.
-  destruct args as [|k [|a [|b [|x r]]]]; intros Hv; unfold h_setrange, nparts, parse_k_int_v, ExecFacts.via, nth_arg;
+  destruct args as [|k [|a [|b [|x r]]]]; unfold h_setrange, nparts, parse_k_int_v, ExecFacts.via, nth_arg;
     rewrite ?bulks_cons, ?bulks_nil; cbn [nth_error x_bytes arg_bytes]; lens; try reflexivity.
-  - valids Hv. rewrite !x_int_valid by assumption.
-    destruct (parse_usize a) as [s|]; reflexivity.
+  - xints.
+    destruct (parse_unsigned u64_max a) as [s|]; reflexivity.
   - len_bool. destruct (1 + (1 + (1 + (1 + (1 + len r)))) =? 4) eqn:E; [lia|]. reflexivity.
 Qed.
 
-Lemma parity_expire args : forallb utf8_valid args = true ->
+Lemma parity_expire args :
   via (match F :: bulks args with
        | [_; k; a] => match x_bytes k, x_int parse_i64 a with Some kb, Some n => Some (XExpire kb n) | _, _ => None end
        | _ => None
        end) = h_expire now d (F :: bulks args).
 Proof.
-  destruct args as [|k [|a [|x r]]]; intros Hv; unfold h_expire, nparts, ExecFacts.via, nth_arg;
+  destruct args as [|k [|a [|x r]]]; unfold h_expire, nparts, ExecFacts.via, nth_arg;
     rewrite ?bulks_cons, ?bulks_nil; cbn [nth_error x_bytes arg_bytes]; lens; try reflexivity.
-  - valids Hv. rewrite x_int_valid by assumption. destruct (parse_i64 a) as [s0|]; reflexivity.
+  - xints. destruct (parse_i64 a) as [s0|]; reflexivity.
   - len_bool. destruct (1 + (1 + (1 + (1 + len r))) =? 3) eqn:E; [lia|]. reflexivity.
 Qed.
-Lemma parity_pexpire args : forallb utf8_valid args = true ->
+Lemma parity_pexpire args :
   via (match F :: bulks args with
        | [_; k; a] => match x_bytes k, x_int parse_u64 a with Some kb, Some n => Some (XPExpire kb n) | _, _ => None end
        | _ => None
        end) = h_pexpire now d (F :: bulks args).
 Proof.
-  destruct args as [|k [|a [|x r]]]; intros Hv; unfold h_pexpire, nparts, ExecFacts.via, nth_arg;
+  destruct args as [|k [|a [|x r]]]; unfold h_pexpire, nparts, ExecFacts.via, nth_arg;
     rewrite ?bulks_cons, ?bulks_nil; cbn [nth_error x_bytes arg_bytes]; lens; try reflexivity.
-  - valids Hv. rewrite x_int_valid by assumption. destruct (parse_u64 a) as [n|]; reflexivity.
+  - xints. destruct (parse_unsigned u64_max a) as [n|]; reflexivity.
   - len_bool. destruct (1 + (1 + (1 + (1 + len r))) =? 3) eqn:E; [lia|]. reflexivity.
 Qed.
 Lemma parity_ttl args : via (parse_k XTtl (F :: bulks args)) = h_ttl now d (F :: bulks args).
@@ -457,7 +527,7 @@ Lemma parity_type_conv args pc :
 Proof.
   destruct args as [|k [|a r]]; unfold h_type, nparts, parse_k, ExecFacts.via, nth_arg;
     rewrite ?bulks_cons, ?bulks_nil; cbn [nth_error x_bytes arg_bytes option_map]; lens; cbv zeta; try (split; reflexivity).
-  - cbn [execute fst snd]. unfold eng_key_type. destruct (get_entry d k); split; reflexivity.
+  - cbn [execute fst snd]. unfold eng_key_type. destruct (get_entry d k) as [e|]; [destruct (e_val e)|]; split; reflexivity.
   - len_bool. destruct (1 + (1 + (1 + len r)) =? 2) eqn:E; [lia|]. split; reflexivity.
 Qed.
 
@@ -488,27 +558,32 @@ Qed.
 Definition refusal (r : setopt) : Prop := match r with SetOpts _ _ _ => False | _ => True end.
 
 Lemma set_opts_rel : forall n opts, (length opts <= n)%nat -> forall fuel o,
-  plain o = true -> forallb utf8_valid opts = true -> (length opts <= fuel)%nat ->
+  plain o = true -> (length opts <= fuel)%nat ->
   match parse_set_options (bulks opts) o with
   | Some o' => plain o' = true ->
                parse_set_opts fuel (bulks opts) (o_exp o) (o_nx o) (o_xx o) = SetOpts (o_exp o') (o_nx o') (o_xx o')
   | None => refusal (parse_set_opts fuel (bulks opts) (o_exp o) (o_nx o) (o_xx o))
   end.
 Proof.
-  induction n as [|n IH]; intros [|a rest] Hl fuel o Hp Hv Hf; cbn [length] in Hl; try lia.
+  induction n as [|n IH]; intros [|a rest] Hl fuel o Hp Hf; cbn [length] in Hl; try lia.
   - rewrite bulks_nil. cbn [parse_set_options]. intros _. destruct fuel; reflexivity.
   - rewrite bulks_nil. cbn [parse_set_options]. intros _. destruct fuel; reflexivity.
   - destruct fuel as [|fuel]; [cbn [length] in Hf; lia|].
-    rewrite bulks_cons. cbn [parse_set_options parse_set_opts]. cbn [forallb] in Hv. apply andb_prop in Hv. destruct Hv as [Ha Hv].
-    rewrite (x_str_valid _ Ha). cbn [length] in Hf.
+    rewrite bulks_cons. cbn [parse_set_options parse_set_opts]. cbn [length] in Hf.
+    destruct (utf8_valid a) eqn:Ha.
+    2:{ (* an option word that is not UTF-8: Err(InvalidUtf8) there, a syntax error here *)
+        unfold x_str. rewrite Ha.
+        rewrite (invalid_not_word a (bs "EX") eq_refl Ha), (invalid_not_word a (bs "PX") eq_refl Ha),
+                (invalid_not_word a (bs "NX") eq_refl Ha), (invalid_not_word a (bs "XX") eq_refl Ha). exact I. }
+    rewrite (x_str_valid _ Ha).
     destruct (beq (upper a) (bs "NX")) eqn:E1.
     { apply beq_eq in E1. rewrite E1. kill_beq. cbv iota.
       apply (IH rest ltac:(lia) fuel {| o_nx := true; o_xx := o_xx o; o_get := o_get o; o_exp := o_exp o; o_keepttl := o_keepttl o |});
-        [exact Hp|exact Hv|lia]. }
+        [exact Hp|lia]. }
     destruct (beq (upper a) (bs "XX")) eqn:E2.
     { apply beq_eq in E2. rewrite E2. kill_beq. cbv iota.
       apply (IH rest ltac:(lia) fuel {| o_nx := o_nx o; o_xx := true; o_get := o_get o; o_exp := o_exp o; o_keepttl := o_keepttl o |});
-        [exact Hp|exact Hv|lia]. }
+        [exact Hp|lia]. }
     destruct (beq (upper a) (bs "GET")) eqn:E3.
     { apply beq_eq in E3. rewrite E3. kill_beq. cbv iota.
       destruct (parse_set_options (bulks rest) _) as [o'|] eqn:Eo; [|exact I].
@@ -516,20 +591,18 @@ Proof.
       intros Hp'. unfold plain in Hp'. rewrite (Eg eq_refl) in Hp'. discriminate. }
     destruct (beq (upper a) (bs "EX")) eqn:E4.
     { destruct rest as [|b rest']; [exact I|].
-      rewrite bulks_cons. cbn [forallb] in Hv. apply andb_prop in Hv. destruct Hv as [Hb Hv].
-      rewrite (x_int_valid _ _ Hb). destruct (parse_u64 b) as [m|]; [|exact I].
+      rewrite bulks_cons. rewrite x_int_u64. destruct (parse_u64 b) as [m|]; [|exact I].
       destruct (m =? 0); [exact I|].
       cbn [length] in *.
       apply (IH rest' ltac:(lia) fuel {| o_nx := o_nx o; o_xx := o_xx o; o_get := o_get o; o_exp := Some (m * 1000); o_keepttl := o_keepttl o |});
-        [exact Hp|exact Hv|lia]. }
+        [exact Hp|lia]. }
     destruct (beq (upper a) (bs "PX")) eqn:E5.
     { destruct rest as [|b rest']; [exact I|].
-      rewrite bulks_cons. cbn [forallb] in Hv. apply andb_prop in Hv. destruct Hv as [Hb Hv].
-      rewrite (x_int_valid _ _ Hb). destruct (parse_u64 b) as [m|]; [|exact I].
+      rewrite bulks_cons. rewrite x_int_u64. destruct (parse_u64 b) as [m|]; [|exact I].
       destruct (m =? 0); [exact I|].
       cbn [length] in *.
       apply (IH rest' ltac:(lia) fuel {| o_nx := o_nx o; o_xx := o_xx o; o_get := o_get o; o_exp := Some m; o_keepttl := o_keepttl o |});
-        [exact Hp|exact Hv|lia]. }
+        [exact Hp|lia]. }
     destruct (beq (upper a) (bs "KEEPTTL")) eqn:E6; [|exact I].
     destruct (parse_set_options (bulks rest) _) as [o'|] eqn:Eo; [|exact I].
     apply set_options_get_mono in Eo. cbn [o_keepttl] in Eo. destruct Eo as [_ Ek].
@@ -538,42 +611,55 @@ Qed.
 
 Definition set_known (opts : list bytes) : bool :=
   match parse_set_options (bulks opts) default_options with
-  | Some o => o_get o || o_keepttl o || (o_nx o && o_xx o)
+  | Some o => o_get o || o_keepttl o
   | None => false
   end.
 
-Lemma parity_set args : forallb utf8_valid args = true ->
+Lemma parity_set args :
   match args with k :: _ => beq k [] = false | [] => True end ->
   set_known (skipn 2 args) = false ->
   via (parse_set (F :: bulks args)) = h_set now d (F :: bulks args).
 Proof.
-  destruct args as [|k [|v opts]]; intros Hv Hk Hs; unfold h_set, nparts, parse_set, ExecFacts.via;
+  destruct args as [|k [|v opts]]; intros Hk Hs; unfold h_set, nparts, parse_set, ExecFacts.via;
     rewrite ?bulks_cons, ?bulks_nil; cbn [nth_error x_bytes arg_bytes skipn]; lens; try reflexivity.
   len_bool. destruct (1 + (1 + (1 + len opts)) <? 3) eqn:E; [lia|]. rewrite Hk.
   cbn [skipn] in Hs. unfold set_known in Hs.
-  cbn [forallb] in Hv. apply andb_prop in Hv. destruct Hv as [_ Hv]. apply andb_prop in Hv. destruct Hv as [_ Hv].
   pose proof (set_opts_rel (length opts) opts (le_n _) (length (F :: FBulk k :: FBulk v :: bulks opts)) default_options
-                eq_refl Hv ltac:(cbn [length]; unfold bulks; rewrite map_length; lia)) as R.
+                eq_refl ltac:(cbn [length]; unfold bulks; rewrite map_length; lia)) as R.
   cbn [o_exp o_nx o_xx default_options] in R.
   destruct (parse_set_options (bulks opts) default_options) as [o|].
   2:{ destruct (parse_set_opts _ _ None false false); [elim R|reflexivity|reflexivity]. }
-  apply orb_false_elim in Hs. destruct Hs as [Hs Hnx]. apply orb_false_elim in Hs. destruct Hs as [Hg Hkp].
+  apply orb_false_elim in Hs. destruct Hs as [Hg Hkp].
   rewrite R by (unfold plain; now rewrite Hg, Hkp).
-  cbn [execute]. rewrite Hnx, Hg. unfold eng_set_nx, eng_set.
-  destruct (o_exp o) as [ms|]; [destruct (ttl_ok ms)|]; destruct (o_nx o); destruct (o_xx o); try discriminate;
-    destruct (eng_exists now d k); reflexivity.
+  cbn [execute]. rewrite Hkp, Hg. cbn [andb orb]. rewrite orb_false_r. unfold eng_set_nx, eng_set.
+  destruct (o_nx o); destruct (o_xx o); cbn [andb]; try reflexivity;
+    (destruct (o_exp o) as [ms|]; [destruct (ttl_ok ms)|]); destruct (eng_exists now d k); reflexivity.
+Qed.
+Lemma parity_noargs (c : xcmd) (h : db -> list frame -> frame * db) args :
+  (forall parts, h d parts = if negb (nparts parts =? 1) then (r_err, d) else execute now d c None) ->
+  via (parse_no_args c (F :: bulks args)) = h d (F :: bulks args).
+Proof.
+  intros Hh. rewrite Hh. destruct args as [|a r]; unfold parse_no_args, nparts, ExecFacts.via; rewrite ?bulks_cons, ?bulks_nil; lens; [reflexivity|].
+  len_bool. destruct (1 + (1 + len r) =? 1) eqn:E; [lia|]. reflexivity.
 Qed.
 End StringsParity.
 
 (** ---- the classes outside which the two paths agree (each with its refutation below) ---- *)
 Definition arg1_empty (args : list bytes) : bool := match args with k :: _ => beq k [] | [] => false end.
 Definition known (now : Z) (d : db) (name : bytes) (args : list bytes) : bool :=
-  if beq name (bs "SET") then arg1_empty args || set_known (skipn 2 args)       (* empty-key; lua-set-options *)
+  (* the direct SET / GET / INCR / INCRBY refuse the empty key (C01 empty-key); the direct SET has no GET / KEEPTTL *)
+  if beq name (bs "SET") then arg1_empty args || set_known (skipn 2 args)
   else if beq name (bs "GET") || beq name (bs "INCR") || beq name (bs "INCRBY") then arg1_empty args
   else if beq name (bs "TYPE") then match args with [_] => true | _ => false end (* status reply vs bulk string *)
-  else if beq name (bs "DBSIZE") || beq name (bs "FLUSHDB") then                 (* lua-arity-unchecked *)
-    match args with [] => false | _ => true end
   else false.
+
+Lemma catalogue_ascii : forallb ascii catalogue = true.
+Proof. vm_compute. reflexivity. Qed.
+Lemma catalogue_name_valid nm : In (upper nm) catalogue -> utf8_valid nm = true.
+Proof.
+  intros H. pose proof catalogue_ascii as G. rewrite forallb_forall in G.
+  apply ascii_valid, upper_ascii, G, H.
+Qed.
 
 Ltac kill_beq_in H :=
   repeat match type of H with
@@ -581,13 +667,12 @@ Ltac kill_beq_in H :=
       let v := eval vm_compute in (beq (bs a) (bs b)) in change (beq (bs a) (bs b)) with v in H
   end.
 Theorem parity : forall now d nm args,
-  forallb utf8_valid (nm :: args) = true ->
   In (upper nm) catalogue ->
   known now d (upper nm) args = false ->
   Some (exec_run now d (bulks (nm :: args)) None) = exec_db now d (upper nm) (bulks (nm :: args)) None.
 Proof.
-  intros now d nm args Hv Hin Hk.
-  cbn [forallb] in Hv. apply andb_prop in Hv. destruct Hv as [Hnm Hv].
+  intros now d nm args Hin Hk.
+  pose proof (catalogue_name_valid nm Hin) as Hnm.
   unfold catalogue in Hin. cbn [map In] in Hin.
   repeat (destruct Hin as [Hin|Hin]; [
     unfold exec_run, parse; rewrite bulks_cons; rewrite (x_str_valid nm Hnm);
@@ -598,7 +683,7 @@ Proof.
     f_equal | ]); [ .. | elim Hin ].
   (* SET *)
   { apply orb_false_elim in Hk. destruct Hk as [Hk1 Hk2].
-    apply (parity_set now d (FBulk nm)); [exact Hv| destruct args; [exact I|exact Hk1] | exact Hk2]. }
+    apply (parity_set now d (FBulk nm)); [destruct args; [exact I|exact Hk1] | exact Hk2]. }
   (* GET *)
   { apply (parity_get now d (FBulk nm)). destruct args as [|k [|? ?]]; try exact I. exact Hk. }
   (* MGET *) { apply (parity_mget now d (FBulk nm)). }
@@ -606,24 +691,24 @@ Proof.
   (* INCR *)
   { apply (parity_incr now d (FBulk nm) true 1 XIncr); [reflexivity|]. destruct args as [|k [|? ?]]; try exact I. exact Hk. }
   (* INCRBY *)
-  { apply (parity_incrby now d (FBulk nm)); [exact Hv|]. destruct args; [exact I|exact Hk]. }
+  { apply (parity_incrby now d (FBulk nm)). destruct args; [exact I|exact Hk]. }
   (* DECR *)
   { apply (parity_incr now d (FBulk nm) false (-1) XDecr); [reflexivity|]. destruct args as [|k [|? ?]]; try exact I. reflexivity. }
-  (* DECRBY *) { apply (parity_decrby now d (FBulk nm)); exact Hv. }
+  (* DECRBY *) { apply (parity_decrby now d (FBulk nm)). }
   (* SETNX *) { apply (parity_setnx now d (FBulk nm)). }
   (* SETEX *)
-  { apply (parity_setex now d (FBulk nm) 1000 XSetEx); [reflexivity|exact Hv]. }
+  { apply (parity_setex now d (FBulk nm) 1000 XSetEx); reflexivity. }
   (* PSETEX *)
-  { apply (parity_setex now d (FBulk nm) 1 XPSetEx); [|exact Hv]. intros k v n. cbn [execute]. now rewrite Z.mul_1_r. }
+  { apply (parity_setex now d (FBulk nm) 1 XPSetEx). intros k v n. cbn [execute]. now rewrite Z.mul_1_r. }
   (* APPEND *) { apply (parity_append now d (FBulk nm)). }
   (* STRLEN *) { apply (parity_strlen now d (FBulk nm)). }
   (* GETSET *) { apply (parity_getset now d (FBulk nm)). }
-  (* GETRANGE *) { apply (parity_getrange now d (FBulk nm)); exact Hv. }
-  (* SETRANGE *) { apply (parity_setrange now d (FBulk nm)); exact Hv. }
+  (* GETRANGE *) { apply (parity_getrange now d (FBulk nm)). }
+  (* SETRANGE *) { apply (parity_setrange now d (FBulk nm)). }
   (* DEL *) { apply (parity_del now d (FBulk nm)). }
   (* EXISTS *) { apply (parity_exists now d (FBulk nm)). }
-  (* EXPIRE *) { apply (parity_expire now d (FBulk nm)); exact Hv. }
-  (* PEXPIRE *) { apply (parity_pexpire now d (FBulk nm)); exact Hv. }
+  (* EXPIRE *) { apply (parity_expire now d (FBulk nm)). }
+  (* PEXPIRE *) { apply (parity_pexpire now d (FBulk nm)). }
   (* TTL *) { apply (parity_ttl now d (FBulk nm)). }
   (* PTTL *) { apply (parity_pttl now d (FBulk nm)). }
   (* PERSIST *) { apply (parity_persist now d (FBulk nm)). }
@@ -634,18 +719,18 @@ Proof.
   (* RENAME *) { apply (parity_rename now d (FBulk nm)). }
   (* RENAMENX *) { apply (parity_renamenx now d (FBulk nm)). }
   (* KEYS *) { apply (parity_keys now d (FBulk nm)). }
-  (* DBSIZE *) { destruct args; [|discriminate]. reflexivity. }
-  (* FLUSHDB *) { destruct args; [|discriminate]. reflexivity. }
+  (* DBSIZE *) { apply (parity_noargs now d (FBulk nm) XDbSize h_dbsize). reflexivity. }
+  (* FLUSHDB *) { apply (parity_noargs now d (FBulk nm) XFlushDb h_flushdb). reflexivity. }
   (* LPUSH *) { apply (shape_k_vs now d (FBulk nm) XLPush (e_push true) (h_push true)); reflexivity. }
   (* RPUSH *) { apply (shape_k_vs now d (FBulk nm) XRPush (e_push false) (h_push false)); reflexivity. }
   (* LPOP *) { apply (shape_k1 now d (FBulk nm) XLPop (e_pop true)); reflexivity. }
   (* RPOP *) { apply (shape_k1 now d (FBulk nm) XRPop (e_pop false)); reflexivity. }
   (* LLEN *) { apply (shape_k1 now d (FBulk nm) XLLen e_llen); reflexivity. }
-  (* LINDEX *) { apply (shape_lindex now d (FBulk nm)); exact Hv. }
-  (* LSET *) { apply (shape_int_bulk now d (FBulk nm) XLSet e_lset); [reflexivity|exact Hv]. }
-  (* LRANGE *) { apply (shape_range now d (FBulk nm) XLRange e_lrange); [reflexivity|exact Hv]. }
-  (* LTRIM *) { apply (shape_range now d (FBulk nm) XLTrim e_ltrim); [reflexivity|exact Hv]. }
-  (* LREM *) { apply (shape_int_bulk now d (FBulk nm) XLRem e_lrem); [reflexivity|exact Hv]. }
+  (* LINDEX *) { apply (shape_lindex now d (FBulk nm)). }
+  (* LSET *) { apply (shape_int_bulk now d (FBulk nm) XLSet e_lset); reflexivity. }
+  (* LRANGE *) { apply (shape_range now d (FBulk nm) XLRange e_lrange); reflexivity. }
+  (* LTRIM *) { apply (shape_range now d (FBulk nm) XLTrim e_ltrim); reflexivity. }
+  (* LREM *) { apply (shape_int_bulk now d (FBulk nm) XLRem e_lrem); reflexivity. }
   (* SADD *) { apply (shape_k_vs now d (FBulk nm) XSAdd e_sadd h_sadd); reflexivity. }
   (* SREM *) { apply (shape_k_vs_skipping now d (FBulk nm) XSRem e_srem); reflexivity. }
   (* SMEMBERS *) { apply (shape_k1 now d (FBulk nm) XSMembers e_smembers); reflexivity. }
@@ -664,5 +749,5 @@ Proof.
   (* HEXISTS *) { apply (shape_kv now d (FBulk nm) XHExists e_hexists); reflexivity. }
   (* HKEYS *) { apply (shape_k1 now d (FBulk nm) XHKeys e_hkeys); reflexivity. }
   (* HVALS *) { apply (shape_k1 now d (FBulk nm) XHVals e_hvals); reflexivity. }
-  (* HINCRBY *) { apply (shape_hincrby now d (FBulk nm)); exact Hv. }
+  (* HINCRBY *) { apply (shape_hincrby now d (FBulk nm)). }
 Qed.
